@@ -16,8 +16,8 @@ type ctx struct {
 	U, LU  []int64
 	ids    []int64 // IDs mentioned so far (query set of the per-step comparison)
 	inIDs  map[int64]bool
-	cur    []int64 // IDs affected by the current step
-	prev   []int64 // IDs affected by the previous step
+	cur    []int64                // IDs affected by the current step
+	prev   []int64                // IDs affected by the previous step
 	soft   map[string]*vk.Failure // first failure per known-defect key after which the history goes on
 	step   int
 	opDesc string
@@ -194,10 +194,37 @@ func (x *ctx) apply(op Op) *vk.Failure {
 			x.opDesc = fmt.Sprintf("SetEdge(%d->%d w %v tag %d)", a, b, w, op.T)
 			// "It will panic if the IDs of the e.From and e.To are equal."
 			var f *vk.Failure
+			var e graph.Edge
 			if ki.weighted {
-				f = x.call("setedge", a == b, func() { s.wea.SetWeightedEdge(pwe{from, to, w, op.T}) })
+				e = pwe{from, to, w, op.T}
 			} else {
-				f = x.call("setedge", a == b, func() { s.ea.SetEdge(pe{from, to, op.T}) })
+				e = pe{from, to, op.T}
+			}
+			if op.T == 3 {
+				// the library's own edge type from NewEdge / NewWeightedEdge
+				et = -1
+				x.opDesc += " via NewEdge"
+				if f := x.call("newedge", false, func() {
+					if ki.weighted {
+						e = s.raw.(graph.WeightedEdgeAdder).NewWeightedEdge(from, to, w)
+					} else {
+						e = s.raw.(graph.EdgeAdder).NewEdge(from, to)
+					}
+				}); f != nil {
+					return f
+				}
+				want := item{f: a, t: b, ft: ft, tt: tt, et: -1}
+				if ki.weighted {
+					want.w, want.hasW = wbits(w), true
+				}
+				if e == nil || edgeItem(e, true) != want {
+					return x.failf("newedge-value", "NewEdge(%d,%d) returned %v", a, b, e)
+				}
+			}
+			if ki.weighted {
+				f = x.call("setedge", a == b, func() { s.wea.SetWeightedEdge(e.(graph.WeightedEdge)) })
+			} else {
+				f = x.call("setedge", a == b, func() { s.ea.SetEdge(e) })
 			}
 			if f != nil || a == b {
 				return f
